@@ -6,6 +6,7 @@ def main():
     c.prove(gen=["wire", "classify", "stmts"])
     c.correspond("rbcfair")
     c.correspond("classify")
+    c.correspond("disphonest")
     return c.finish(
         rule="rbcfair: N in 2..5 real receivers, all honest, workloads with several concurrent senders, up to two consecutive rounds and point-to-point messages; every message delivered exactly once in an order "
              "drawn by the PRNG under one of six biases (uniform, acknowledgements first, acknowledgements last, one party starved, LIFO, later round first); plus EVERY delivery order of N=3/one sender and "
